@@ -270,14 +270,15 @@ impl C17 {
         };
         let n = ALPHABET.len() as u64;
         if ctx.flavour == Flavour::Miri {
-            return Families::new(vec![("directed", directed().len() as u64), ("len-1", n), ("len-2", 40), ("len-3", 40), ("cuts", 4), ("random", 40)]);
+            return Families::new(vec![("directed", directed().len() as u64), ("len-1", n), ("len-2", 40), ("len-3", 40), ("cuts", 4), ("random", 40), ("valgrind-prompt", 0)]);
         }
         let (l3, cuts) = match (ctx.flavour, ctx.tier) {
             (Flavour::Rel, Tier::Quick) => (n * n * n, 600),
             (Flavour::Rel, Tier::Thorough) => (n * n * n, n + n * n + n * n * n),
             _ => (200, 50),
         };
-        Families::new(vec![("directed", directed().len() as u64), ("len-1", n), ("len-2", n * n), ("len-3", l3), ("cuts", cuts), ("random", rnd)])
+        let vg = if ctx.flavour == Flavour::Rel { directed().len() as u64 + ctx.tier.pick(0, 200) } else { 0 };
+        Families::new(vec![("directed", directed().len() as u64), ("len-1", n), ("len-2", n * n), ("len-3", l3), ("cuts", cuts), ("random", rnd), ("valgrind-prompt", vg)])
     }
 
     fn alphabet_session(i: u64, len: usize) -> Vec<Line> {
@@ -317,6 +318,14 @@ impl C17 {
                     Self::alphabet_session(j - n, 2)
                 } else {
                     Self::alphabet_session(j - n - n * n, 3)
+                }
+            }
+            "valgrind-prompt" => {
+                let d = directed();
+                if (i as usize) < d.len() {
+                    d[i as usize].1.iter().map(|t| Line { text: t.to_string(), budget: None }).collect()
+                } else {
+                    random_session(&mut r).into_iter().map(|l| Line { text: l.text, budget: None }).collect()
                 }
             }
             _ => random_session(&mut r),
@@ -680,7 +689,7 @@ impl Check for C17 {
         self.fams(ctx).total()
     }
     fn chunk_size(&self, _ctx: &Ctx) -> u64 {
-        100
+        20
     }
     fn describe_case(&mut self, ctx: &Ctx, idx: u64) -> String {
         session_text(&self.session(ctx, idx).1)
@@ -697,6 +706,54 @@ impl Check for C17 {
             let (_, _, i) = self.fams(ctx).locate(idx);
             let name = directed()[i as usize].0;
             self.judge(&lines, &format!("directed:{}", name), ctx, st);
+            return;
+        }
+        if fam == "valgrind-prompt" {
+            // the session through the interactive prompt of the hook-free release binary, under valgrind memcheck
+            let bin_s = format!("{}/harness/target-repo/release/nederlang", crate::sup::root());
+            if !std::path::Path::new(&bin_s).exists() {
+                st.inconclusive(format!("{} not built", bin_s));
+                return;
+            }
+            // skip sessions with a genuine endless loop
+            if lines.iter().any(|l| l.text.contains("zolang ja")) {
+                return;
+            }
+            use std::io::Write;
+            let child = std::process::Command::new("timeout")
+                .args(["120", "valgrind", "-q", "--error-exitcode=99", "--leak-check=no", bin_s.as_str()])
+                .stdin(std::process::Stdio::piped())
+                .stdout(std::process::Stdio::null())
+                .stderr(std::process::Stdio::piped())
+                .spawn();
+            let mut child = match child {
+                Ok(c) => c,
+                Err(e) => {
+                    st.inconclusive(format!("valgrind could not be started: {}", e));
+                    return;
+                }
+            };
+            if let Some(mut inp) = child.stdin.take() {
+                for l in &lines {
+                    let _ = writeln!(inp, "{}", l.text.replace('\n', " "));
+                }
+            }
+            st.evaluations += 1;
+            if let Ok(o) = child.wait_with_output() {
+                st.count("valgrind:prompt-sessions");
+                let err = String::from_utf8_lossy(&o.stderr).to_string();
+                match o.status.code() {
+                    Some(99) => {
+                        let class = if err.contains("Invalid read") { "invalid-read" } else if err.contains("Invalid write") { "invalid-write" } else if err.contains("Invalid free") { "invalid-free" } else { "error" };
+                        let k = err.find("==").unwrap_or(0);
+                        st.violation(&format!("valgrind-prompt:{}", class), crate::obs::clip(&err[k..], 1500), &session_text(&lines));
+                    }
+                    Some(124) => st.count("case-inconclusive:valgrind-timeout"),
+                    None => st.violation("valgrind-prompt:killed-by-signal", crate::obs::clip(&err, 600), &session_text(&lines)),
+                    Some(101) => st.violation("valgrind-prompt:panic", crate::obs::clip(&err, 600), &session_text(&lines)),
+                    _ => {}
+                }
+            }
             return;
         }
         if fam == "cuts" {
